@@ -102,6 +102,21 @@ def handle : List String → String
           | some e => "err " ++ errTok e
       s!"n={evs.length} {evToks} end={endTok} fin={finTok} sde={boolTok p'.seenDocEnd} syn={boolTok p'.synthesizedNull} last={p'.lastLoc}"
     | some _ => "bad-op"
+  -- the budget report handed to the callback by `finish()` after a drain without error
+  | "report" :: stop :: rest =>
+    match parseBudget rest with
+    | none => "bad-op"
+    | some (bud, a :: b :: c :: itemToks) =>
+      let (items, left) := parseItems itemToks #[]
+      if !left.isEmpty then "bad-op items" else
+      let p := mkPump (stop == "1") bud a.toNat! b.toNat! c.toNat!
+      let (_, step, p', _) := drain 1000000 p items.toList []
+      match step with
+      | .error _ => "rep=none"
+      | _ => match (finish p').2 with
+        | none => "rep=none"
+        | some r => "rep=" ++ C07.reportTok r
+    | some _ => "bad-op"
   | _ => "bad-op"
 
 end Driver.PumpDrv
